@@ -468,7 +468,9 @@ class P:
                     or (self.isid("const") and not self.isp("{", 1)):
                 raise Bad("nested item `%s` inside a function body" % self.peek()[1])
             if self.isid() and self.peek()[1] in ("if", "match", "unsafe", "loop", "while", "for") or self.isp("{"):
-                e = self.postfix(self.primary(False))
+                e = self.primary(False)
+                if self.isp(".") or self.isp("?"):
+                    e = self.postfix(e)
                 if (closer and self.isp(closer)) or (closer is None and self.eof()):
                     tail = e
                     break
@@ -1032,6 +1034,16 @@ def is_none_like(e):
     return False
 
 
+def any_try_or_return(node):
+    found = []
+
+    def f(n):
+        if n[0] in ("try", "return"):
+            found.append(n)
+    walk(node, f)
+    return bool(found)
+
+
 def pattern_names(p, acc):
     if p[0] == "pid":
         acc.append(p[1])
@@ -1538,8 +1550,6 @@ class Tr:
 
     def opt_match(self, scrut, arms, want, env, kk, else_thunk):
         for pats, guard, _ in arms:
-            if guard is not None:
-                raise Bad("match guards are not supported")
             if len(pats) != 1:
                 raise Bad("or-patterns are not supported")
 
@@ -1549,29 +1559,41 @@ class Tr:
             return self.branch(node, want, env2, kk)
 
         def done(t, ty):
-            flat = [(p[0], bd) for p, _, bd in arms]
+            flat = [(p[0], g, bd) for p, g, bd in arms]
             if ty[0] in ("opt", "res"):
-                some_arm = none_arm = None
-                for p, bd in flat:
-                    if p[0] == "pctor" and p[1][-1] in ("Some", "Ok") and len(p[2]) == 1:
-                        some_arm = some_arm or (p[2][0], bd)
-                    elif (p[0] == "ppath" and p[1][-1] == "None") or (p[0] == "pctor" and p[1][-1] == "Err" and len(p[2]) == 1
-                                                                       and p[2][0][0] in ("pwild", "pid")):
-                        none_arm = none_arm or (None, bd)
-                    elif p[0] in ("pwild", "pid"):
-                        if p[0] == "pid":
-                            raise Bad("binding a whole Option in a match arm is not supported")
-                        some_arm = some_arm or (("pwild",), bd)
-                        none_arm = none_arm or (None, bd)
-                    else:
+                def is_some(p):
+                    return p[0] == "pctor" and p[1][-1] in ("Some", "Ok") and len(p[2]) == 1
+
+                def is_none(p):
+                    return (p[0] == "ppath" and p[1][-1] == "None") or (
+                        p[0] == "pctor" and p[1][-1] == "Err" and len(p[2]) == 1 and p[2][0][0] in ("pwild", "pid"))
+                for p, _, _ in flat:
+                    if not (is_some(p) or is_none(p) or p[0] == "pwild"):
                         raise Bad("unsupported pattern in a match on %s" % show_ty(ty))
-                if some_arm is None or none_arm is None:
-                    raise Bad("match on %s does not cover Some and None" % show_ty(ty))
-                binds = []
-                lp = self.irrefutable(some_arm[0], ty[1], binds)
-                env2 = dict(env)
-                env2.update(binds)
-                return ("optcase", str(t), lp, body(some_arm[1], env2), body(none_arm[1], env))
+                x = self.fresh()
+
+                def chain(i, some):
+                    if i == len(flat):
+                        raise Bad("match on %s does not cover %s" % (show_ty(ty), "Some" if some else "None"))
+                    p, g, bd = flat[i]
+                    if (some and is_none(p)) or (not some and is_some(p)):
+                        return chain(i + 1, some)
+                    env2 = dict(env)
+                    wrap_ = lambda c: c
+                    if some and is_some(p):
+                        binds = []
+                        lp = self.irrefutable(p[2][0], ty[1], binds)
+                        env2.update(binds)
+                        if lp != "_":
+                            wrap_ = lambda c: ("let", lp, x, c)
+                    if g is None:
+                        return wrap_(body(bd, env2))
+                    return wrap_(self.cond(g, env2, lambda prop: ("if", prop, body(bd, env2), chain(i + 1, some))))
+                return ("optcase", str(t), x, chain(0, True), chain(0, False))
+            for _, g, _ in flat:
+                if g is not None:
+                    raise Bad("match guards are only supported on Option/Result")
+            flat = [(p, bd) for p, _, bd in flat]
             if ty == T_BOOL:
                 tb = fb = None
                 for p, bd in flat:
@@ -1751,6 +1773,8 @@ class Tr:
                 if name in ("unwrap", "expect"):
                     v = self.fresh()
                     return ("bind", v, ("raw", "unwrapP %s" % s), k(Term(v), ty[1]))
+                if name in ("map", "and_then") and len(args) == 1 and args[0][0] == "closure" and len(args[0][1]) == 1:
+                    return self.opt_closure(t2, ty, name, args[0], want, env, k)
                 raise Bad("method `.%s()` on %s is not supported" % (name, show_ty(ty)))
             return self.force(forced)(t, ty)
         if kind == "nt":
@@ -1768,6 +1792,19 @@ class Tr:
                 c = t.prop if t.prop else "%s = true" % paren(t)
                 return self.trf(args[0], wi, env, lambda a, aty: k(
                     Term("(if %s then some %s else none)" % (c, paren(self.val(a)))), ("opt", aty)))
+            if name == "then" and len(args) == 1 and args[0][0] == "closure" and not args[0][1]:
+                wi = want[1] if want is not None and want[0] in ("opt", "res") else None
+                c = t.prop if t.prop else "%s = true" % paren(t)
+                if self.assigned_outer(args[0][2], env):
+                    raise Bad("closure assigns a captured variable")
+                tys = []
+
+                def kk(a, aty):
+                    tys.append(aty)
+                    return ("pure", Term("(some %s)" % paren(self.val(a))))
+                body = self.closure_body(args[0][2], wi, env, self.force(kk))
+                v = self.fresh()
+                return ("bind", v, ("if", c, body, ("pure", Term("none"))), k(Term(v), ("opt", tys[0] if tys else None)))
             raise Bad("method `.%s()` on bool is not supported" % name)
         if kind == "dur":
             s = paren(t)
@@ -1782,6 +1819,35 @@ class Tr:
                 return k(Term("decide (%s)" % p, prop=p), T_BOOL)
             raise Bad("method `Duration::%s` is not supported" % name)
         raise Bad("method `.%s()` on %s is not supported" % (name, show_ty(ty)))
+
+    def closure_body(self, body, want, env, kk):
+        if self.value_return(body) or any_try_or_return(body):
+            raise Bad("`?`/`return` inside a closure is not supported")
+        return self.branch(body, want, env, kk)
+
+    def opt_closure(self, t, ty, name, clo, want, env, k):
+        """`o.map(|p| body)` / `o.and_then(|p| body)`: one R-computation yielding the resulting Option"""
+        binds = []
+        lp = self.irrefutable(clo[1][0], ty[1], binds)
+        if self.assigned_outer(clo[2], env):
+            raise Bad("closure assigns a captured variable")
+        env2 = dict(env)
+        env2.update(binds)
+        wi = want[1] if want is not None and want[0] in ("opt", "res") else None
+        tys = []
+
+        def kk(a, aty):
+            if name == "map":
+                tys.append((ty[0], aty))
+                return ("pure", Term("(some %s)" % paren(self.val(a))))
+            if aty[0] not in ("opt", "res"):
+                raise Bad("and_then closure returns %s" % show_ty(aty))
+            tys.append(aty)
+            return ("pure", a)
+        some_comp = self.closure_body(clo[2], wi if name == "map" else want, env2, self.force(kk))
+        v = self.fresh()
+        rty = tys[0] if tys else (ty[0], None)
+        return ("bind", v, ("optcase", str(t), lp, some_comp, ("pure", Term("none"))), k(Term(v), rty))
 
     def int_method(self, t, ty, name, args, want, env, k):
         s = paren(t)
@@ -2192,7 +2258,7 @@ def generate(repo="/repo"):
     unfold = fnnames + ["ck", "plain", "dur_new"] + ["ck_%s" % n for n in ints] + ["plain_%s" % n for n in ints] + [
         "ofOpt_some", "ofOpt_none", "ofOpt_ite", "unwrapP_some", "unwrapP_none", "unwrapP_ite", "reify_val", "reify_none",
         "reify_panic", "reify_ite", "optCase_some", "optCase_none", "optCase_ite", "rbind_val", "rbind_none", "rbind_panic",
-        "rpure", "rbind_ite", "rbind_assoc"]
+        "rpure", "rbind_ite", "rbind_assoc", "if_true", "if_false", "eq_self", "Bool.false_eq_true", "reduceCtorEq"]
     arith = ["wrap"] + ["wrap_%s" % n for n in ints] + ["%s_%s" % (n, s) for n in ints for s in ("MIN", "MAX", "MOD")] + constnames
     out.append("/-- unfold every translated function and the R/Option plumbing: what remains is a tree of `if`s over\n"
                "    integer comparisons with `.val`/`.none`/`.panic` leaves -/\n"
